@@ -29,7 +29,13 @@ def gen_cases(seed, tier, n):
     out = []
     profs = ["idle", "idle", "fifo_tiny", "idle_steps"]
     for i in range(n):
-        c = tracegen.gen_case(seed, i, tracegen.PROFILES[profs[i % len(profs)]])
+        prof = tracegen.PROFILES[profs[i % len(profs)]]
+        if i % 11 == 5:
+            # clock skew between host and device: some activities are stamped before their launch call (the classification is a rule about
+            # the recorded instants, whatever their order)
+            from dataclasses import replace as _replace
+            prof = _replace(prof, name=prof.name + "+skew", kernel_causal=False)
+        c = tracegen.gen_case(seed, i, prof)
         rng = random.Random(seed * 7919 + i)
         c["params"] = {"pseed": rng.randint(0, 10 ** 9)}
         if i % 3 == 1:
